@@ -2756,8 +2756,10 @@ class Cast(ColExpr):
                     source=self._fn_id,
                 )
 
-        if types.is_const(self.val.dtype()):
-            self._dtype = types.with_const(self._dtype)
+        # const exactly if the operand is (the operand's type may change, e.g. by a union)
+        self._dtype = (
+            types.with_const(self.target_type) if types.is_const(self.val.dtype()) else copy.copy(self.target_type)
+        )
         return self._dtype
 
     def _ast_repr(self, depth: int, needs_parens: bool, table_display_name_map) -> str:
